@@ -58,16 +58,55 @@ func (m voteMsg) equal(o voteMsg) bool {
 	return m.PS == nil || (m.PS.CountWord == o.PS.CountWord && bytes.Equal(m.PS.Hash, o.PS.Hash))
 }
 
+// a byte string as one hexadecimal N literal unfolded by lib.Bytes.be_bytes
+// (parsing hundreds of list cells per case dominates the Coq run otherwise)
+func coqHexBytes(b []byte) string {
+	if len(b) == 0 {
+		return "[]"
+	}
+	return fmt.Sprintf("(hx %d 0x%x)", len(b), b)
+}
+
 func coqPS(ps *consensus.PartSetIDAndAppData) string {
 	if ps == nil {
 		return "None"
 	}
-	return fmt.Sprintf("(Some (%d, %s))", ps.CountWord, hxlib.CoqBytes(ps.Hash))
+	return fmt.Sprintf("(Some (%d, %s))", ps.CountWord, coqHexBytes(ps.Hash))
 }
 
-func (m voteMsg) coqSigned(k int) string {
-	return fmt.Sprintf("Sg %d%%nat %s %s %s %s %s %s", k, hxlib.CoqZ(m.H), hxlib.CoqZ(m.R),
-		hxlib.CoqBool(m.T == 1), hxlib.CoqBytes(m.BID), coqPS(m.PS), hxlib.CoqZ(m.TS))
+// Coq terms are printed inside `let b := <block id> in let p := <part-set id> in …`
+// (see coqVerify): fields equal to the list's own are printed as the bound names.
+type coqEnv struct {
+	bid []byte
+	ps  *consensus.PartSetIDAndAppData
+}
+
+func psEqual(a, b *consensus.PartSetIDAndAppData) bool {
+	if (a == nil) != (b == nil) {
+		return false
+	}
+	return a == nil || (a.CountWord == b.CountWord && bytes.Equal(a.Hash, b.Hash))
+}
+
+// numerals are printed bare: the argument scopes declared in Run_C05.v apply
+func zlit(v int64) string {
+	if v < 0 {
+		return fmt.Sprintf("(%d)", v)
+	}
+	return fmt.Sprintf("%d", v)
+}
+
+func (m voteMsg) coqSigned(k int, env coqEnv) string {
+	bid := coqHexBytes(m.BID)
+	if bytes.Equal(m.BID, env.bid) {
+		bid = "b"
+	}
+	ps := coqPS(m.PS)
+	if psEqual(m.PS, env.ps) {
+		ps = "p"
+	}
+	return fmt.Sprintf("Sg %d %s %s %s %s %s %s", k, zlit(m.H), zlit(int64(m.R)),
+		hxlib.CoqBool(m.T == 1), bid, ps, zlit(m.TS))
 }
 
 // ground truth of one signature
@@ -84,14 +123,18 @@ type item struct {
 	Note string
 }
 
-func (it item) coq() string {
+func (it item) coq(env coqEnv) string {
 	switch it.GT.Kind {
 	case "signed":
-		return fmt.Sprintf("(%s, %s)", hxlib.CoqZ(it.TS), it.GT.Msg.coqSigned(it.GT.Key))
+		m := it.GT.Msg
+		if m.TS == it.TS && m.T == 1 && bytes.Equal(m.BID, env.bid) && psEqual(m.PS, env.ps) {
+			return fmt.Sprintf("Ok %s %s b p %d %s", zlit(m.H), zlit(int64(m.R)), it.GT.Key, zlit(it.TS))
+		}
+		return fmt.Sprintf("It %s (%s)", zlit(it.TS), m.coqSigned(it.GT.Key, env))
 	case "junk":
-		return fmt.Sprintf("(%s, Junk)", hxlib.CoqZ(it.TS))
+		return fmt.Sprintf("It %s Junk", zlit(it.TS))
 	default:
-		return fmt.Sprintf("(%s, Unrec)", hxlib.CoqZ(it.TS))
+		return fmt.Sprintf("It %s Unrec", zlit(it.TS))
 	}
 }
 
@@ -670,10 +713,10 @@ func emitVerify(x *hxlib.Ctx, kind string, c *bctx, height int64, vals [][]byte,
 	x.Emit(cs)
 }
 
-func coqItems(items []item) string {
+func coqItems(items []item, env coqEnv) string {
 	its := make([]string, len(items))
 	for i, it := range items {
-		its[i] = it.coq()
+		its[i] = it.coq(env)
 	}
 	return hxlib.CoqList(its)
 }
@@ -681,7 +724,7 @@ func coqItems(items []item) string {
 func coqKeys(valKeys []int) string {
 	ks := make([]string, len(valKeys))
 	for i, k := range valKeys {
-		ks[i] = hxlib.CoqNat(k)
+		ks[i] = fmt.Sprintf("%d", k)
 	}
 	return hxlib.CoqList(ks)
 }
@@ -691,8 +734,8 @@ func coqVerify(c *bctx, height int64, valKeys []int, nilVals bool, items []item,
 	if !nilVals {
 		vals = "(Some " + coqKeys(valKeys) + ")"
 	}
-	return fmt.Sprintf("(CVerify %s %s %s %s %s %s %s)", hxlib.CoqZ(height), hxlib.CoqZ(c.r),
-		hxlib.CoqBytes(c.bid), coqPS(c.ps), vals, coqItems(items), obs)
+	return fmt.Sprintf("(let b := %s in let p := %s in CVerify %s %s b p %s %s %s)", coqHexBytes(c.bid), coqPS(c.ps),
+		zlit(height), zlit(int64(c.r)), vals, coqItems(items, coqEnv{c.bid, c.ps}), obs)
 }
 
 func gen(x *hxlib.Ctx) {
@@ -714,7 +757,7 @@ func gen(x *hxlib.Ctx) {
 			if voters > 0 && got != (3*voted > 2*voters) {
 				msg = fmt.Sprintf("enoughVote(%d,%d)=%v but 3*voted>2*voters is %v", voted, voters, got, 3*voted > 2*voters)
 			}
-			x.Emit(hxlib.Case{Kind: "enoughVote", Coq: fmt.Sprintf("(CEnough %d%%nat %d%%nat %s)", voted, voters, hxlib.CoqBool(got)),
+			x.Emit(hxlib.Case{Kind: "enoughVote", Coq: fmt.Sprintf("(CEnough %d %d %s)", voted, voters, hxlib.CoqBool(got)),
 				Input: map[string]interface{}{"t": "enough", "voted": voted, "voters": voters}, Nontrivial: voters > 0, OracleErr: msg})
 		}
 	}
@@ -735,6 +778,9 @@ func gen(x *hxlib.Ctx) {
 				reps := 1
 				if critical {
 					reps = 3
+				}
+				if k > f {
+					reps = 5
 				}
 				for q := 0; q < reps; q++ {
 					emitVerify(x, fmt.Sprintf("subset/%s", rel(k, f)), c, c.h, c.valAddrs(), c.vals, false, baseList(r, c, k))
@@ -822,7 +868,7 @@ func gen(x *hxlib.Ctx) {
 		items := baseList(r, c, 3)
 		x.Emit(hxlib.Case{Kind: "canary", Canary: true, Coq: coqVerify(c, c.h, c.vals, false, items, "OReject")})
 		x.Emit(hxlib.Case{Kind: "canary", Canary: true, Coq: coqVerify(c, c.h, c.vals, false, items[:2], "(OAccept [true; true; false; false])")})
-		x.Emit(hxlib.Case{Kind: "canary", Canary: true, Coq: "(CEnough 2%nat 3%nat true)"})
+		x.Emit(hxlib.Case{Kind: "canary", Canary: true, Coq: "(CEnough 2 3 true)"})
 	}
 }
 
@@ -918,7 +964,7 @@ func replay(raw json.RawMessage) string {
 			return fmt.Sprintf("enoughVote(%d,%d)=%v", in.Voted, in.Voters, got)
 		}
 		return ""
-	case "chain":
+	case "chain", "chain-setup":
 		return replayChain(raw)
 	}
 	return "unknown case type " + t.T
